@@ -21,6 +21,9 @@ from harness.drivers import event_log as evdrv
 from harness.env import stubimport, vloop
 
 stubimport.install()
+# update_handler_status logs a warning for every unknown run_id; the histories do that on purpose
+import logging as _logging
+_logging.getLogger("llama_agents.server._store.abstract_workflow_store").setLevel(_logging.ERROR)
 
 T0 = datetime(2026, 1, 1, tzinfo=timezone.utc)
 NOFILTER = {"ids": {"given": False, "vals": []}, "runs": {"given": False, "vals": []},
